@@ -30,6 +30,7 @@ type Result struct {
 	CGNodes    int                `json:"callgraph_nodes"`
 	CGEdges    int                `json:"callgraph_edges"`
 	DepErrors  []string           `json:"dependency_type_errors"`
+	Renames    []string           `json:"renamed_identifiers_normalised,omitempty"`
 	Timings    map[string]float64 `json:"timings"`
 	AnalysisS  float64            `json:"analysis_wall_s"`
 	Rules      []RuleResult       `json:"rules"`
@@ -55,6 +56,7 @@ func main() {
 		dump     = flag.Bool("dump", false, "print every obligation")
 		listR    = flag.Bool("rules", false, "list rules and exit")
 		controls = flag.Bool("controls-only", false, "run only the positive controls")
+		genRef   = flag.String("gen-reference", "", "write the reference table of unexported identifiers of -repo to this file and exit (see rename.go)")
 	)
 	flag.Parse()
 	exe, _ := os.Executable()
@@ -84,6 +86,15 @@ func main() {
 		for _, m := range msgs {
 			fmt.Println(m)
 		}
+		return
+	}
+	if *genRef != "" {
+		os.Setenv("CLUSTERLINT_NO_RENAME", "1")
+		p := Load(abs, false, false)
+		if err := genReference(p, *genRef); err != nil {
+			brokenf("%v", err)
+		}
+		fmt.Printf("reference table of %d packages written to %s\n", len(p.Repo), *genRef)
 		return
 	}
 	if *replay != "" {
@@ -244,6 +255,12 @@ func analyse(root, tier string) *Result {
 	}
 	res := &Result{Tier: tier, Repo: root, Packages: len(p.Repo), AllPkgs: len(p.All), RepoFuncs: p.NumFuncs,
 		DepErrors: p.DepErrs, Timings: p.Timings, Controls: ctl}
+	for _, rn := range p.Renames {
+		res.Renames = append(res.Renames, rn.String())
+	}
+	if p.RenameNote != "" {
+		res.Renames = append(res.Renames, p.RenameNote)
+	}
 	if p.CG != nil {
 		res.CGNodes = len(p.CG.Nodes)
 		for _, n := range p.CG.Nodes {
